@@ -76,7 +76,15 @@ type Cmd struct {
 	// lookup, auction: the account knows its wallet (e2wtypes.AccountWalletProvider), so its name in the
 	// configuration's account expressions is "wallet-c12/account-v" instead of "<unknown>/account-v"
 	Wallet bool `json:"wallet,omitempty"`
-	Gate      bool   `json:"gate,omitempty"`      // hold the request inside ProposerConfig until released
+	// lookup, auction (with an account): hold the request inside ProposerConfig, i.e. INSIDE the configuration read
+	// lock, until released.  fwd, reg: the relay sits on the POST of the registrations until released (or until the
+	// request's context ends): the request is held OUTSIDE the lock, in submitRelayRegistrations
+	Gate bool `json:"gate,omitempty"`
+	// bid: requests with the same non-zero key ask for the same bid (same slot, parent hash and public key), as
+	// beacon nodes do when they repeat a header request or several of them ask for the same one; 0: a bid of its own.
+	// The generators stop using a key once a request with it may have obtained a bid (the answer would then come
+	// from the bid cache instead of the configuration)
+	Key uint64 `json:"key,omitempty"`
 	Acc       string `json:"acc,omitempty"`       // refresh: accounts provider: "" (accounts) | err | none
 	Fetch     string `json:"fetch,omitempty"`     // refresh: ok | err | malformed
 	Malformed string `json:"malformed,omitempty"` // which malformed content
@@ -131,6 +139,10 @@ type script struct {
 	bidFee    *uint64 // set by the builder-bid provider: id of the fee recipient it was asked with
 	bidCalled bool
 	forwarded atomic.Int64 // registrations handed to the relay on behalf of this request
+	// the relay sits on the POST of this request's registrations until the gate is closed (nil: answers at once)
+	relayGate    chan struct{}
+	relayEntered chan struct{}
+	relayOnce    sync.Once
 }
 
 func scriptOf(ctx context.Context) *script {
@@ -266,8 +278,18 @@ func (relayClient) Name() string             { return "c12-relay" }
 func (relayClient) Address() string          { return relayAddress }
 func (relayClient) Pubkey() *phase0.BLSPubKey { return nil }
 func (relayClient) SubmitValidatorRegistrations(ctx context.Context, opts *builderapi.SubmitValidatorRegistrationsOpts) error {
-	if s := scriptOf(ctx); s != nil && opts != nil {
+	s := scriptOf(ctx)
+	if s != nil && opts != nil {
 		s.forwarded.Add(int64(len(opts.Registrations)))
+	}
+	if s != nil && s.relayGate != nil {
+		// a slow relay: the answer comes when the harness says so, or never (the request's context decides)
+		s.relayOnce.Do(func() { close(s.relayEntered) })
+		select {
+		case <-s.relayGate:
+		case <-ctx.Done():
+			return ctx.Err()
+		}
 	}
 	return nil
 }
@@ -366,6 +388,34 @@ type thread struct {
 	doneAt   int
 	inGate   bool
 	released bool
+	// the request is one that the RELAY holds (fwd, reg with gate), outside the configuration lock
+	relayGate    chan struct{}
+	relayEntered chan struct{}
+}
+
+// the channel that tells that the request has reached the point where it is held (nil: never held)
+func (th *thread) enteredCh() chan struct{} {
+	if th.relayEntered != nil {
+		return th.relayEntered
+	}
+	if th.account != nil {
+		return th.account.entered
+	}
+	return nil
+}
+
+// openGate lets a held request go
+func (th *thread) openGate() {
+	if th.released {
+		return
+	}
+	if th.relayGate != nil {
+		close(th.relayGate)
+	}
+	if th.account != nil && th.account.gate != nil {
+		close(th.account.gate)
+	}
+	th.released = true
 }
 
 type runner struct {
@@ -401,9 +451,9 @@ func (r *runner) poll() {
 			default:
 			}
 		}
-		if !th.inGate && th.account != nil {
+		if ch := th.enteredCh(); !th.inGate && ch != nil {
 			select {
-			case <-th.account.entered:
+			case <-ch:
 				th.inGate = true
 			default:
 			}
@@ -413,7 +463,9 @@ func (r *runner) poll() {
 
 // settle waits until the implementation has done everything it can do without further commands:
 // every request has returned or sits in its gate, or a refresh has announced its write lock while a
-// gated request is inside (then it legitimately waits).
+// gated request is INSIDE the read lock (then it legitimately waits).  A request held by the relay is
+// outside the lock: nothing may wait for it (a refresh that does not finish, or a request queued behind
+// it, while only relay-held requests are outstanding runs into the watchdog).
 func (r *runner) settle() {
 	if r.hung {
 		r.poll()
@@ -427,7 +479,7 @@ func (r *runner) settle() {
 			if th.cmd.Op == "refresh" && !th.finished {
 				refreshUnfinished = true
 			}
-			if th.inGate && !th.released && !th.finished {
+			if th.inGate && !th.released && !th.finished && th.relayGate == nil {
 				gated = true
 			}
 			if !(th.finished || (th.inGate && !th.released)) {
@@ -468,6 +520,11 @@ func (r *runner) spawn(ctx context.Context, c Cmd, repeat int) {
 			if c.Wallet {
 				sc.account = walletAcct{th.account}
 			}
+		}
+	case "fwd", "reg":
+		if c.Gate {
+			sc.relayGate, sc.relayEntered = make(chan struct{}), make(chan struct{})
+			th.relayGate, th.relayEntered = sc.relayGate, sc.relayEntered
 		}
 	case "refresh":
 		switch c.Fetch {
@@ -630,11 +687,7 @@ func runOnce(s Scenario, watchdogFactor int) (Obs, bool) {
 		r.cmdIndex = i
 		if c.Op == "release" {
 			if c.K >= 0 && c.K < len(r.threads) {
-				th := r.threads[c.K]
-				if th.account != nil && th.account.gate != nil && !th.released {
-					close(th.account.gate)
-				}
-				th.released = true
+				r.threads[c.K].openGate()
 			}
 		} else {
 			r.spawn(ctx, c, repeat)
@@ -691,10 +744,7 @@ func runOnce(s Scenario, watchdogFactor int) (Obs, bool) {
 	if r.hung {
 		// let the goroutines that are only waiting in a gate go; those wedged on the lock stay
 		for _, th := range r.threads {
-			if th.account != nil && th.account.gate != nil && !th.released {
-				close(th.account.gate)
-				th.released = true
-			}
+			th.openGate()
 		}
 	}
 	return o, r.hung
@@ -742,7 +792,7 @@ func cmdTerm(c Cmd) string {
 	if c.Op == "refresh" {
 		ref = refreshTerm(c)
 	}
-	return App("Spawn", Record("sp_kind", kind, "sp_v", N(c.V), "sp_gate", Bool(c.Gate && !accountless(c)), "sp_ref", ref))
+	return App("Spawn", Record("sp_kind", kind, "sp_v", N(c.V), "sp_gate", Bool(gated(c)), "sp_ref", ref))
 }
 
 func caseTerm(id uint64, s Scenario, o Obs, readerWrites int) string {
@@ -774,9 +824,31 @@ type genState struct {
 	inflight  []int // gates the running refresh waits for (nil: no refresh in flight)
 	nextDoc   uint64
 	tags      map[string]bool
+	// requests held by the relay (outside the lock) and not yet released (thread numbers)
+	relayGates []int
+	regHeld    bool // one of them is a registration round (the service runs one round at a time and skips the others)
+	// builder bid requests for the same bid: per validator, whether some document issued so far gives it a
+	// relay (a bid request may then obtain a bid, which is cached), and how many keys have been used up
+	cacheable map[uint64]bool
+	keyGen    map[uint64]uint64
 }
 
 func (g *genState) add(c Cmd) int {
+	if c.Op == "reg" && g.regHeld {
+		// a second round while one is held by the relay is skipped by the service: not a round at all
+		c = Cmd{Op: "lookup", V: 1}
+	}
+	if c.Op == "refresh" && c.Doc != nil && c.Doc.Relay {
+		bad := map[uint64]bool{}
+		for _, v := range c.Doc.Bad {
+			bad[v] = true
+		}
+		for v := uint64(1); v <= nValidators; v++ {
+			if !bad[v] {
+				g.cacheable[v] = true
+			}
+		}
+	}
 	g.s.Cmds = append(g.s.Cmds, c)
 	if c.Op != "release" {
 		g.nThreads++
@@ -785,15 +857,73 @@ func (g *genState) add(c Cmd) int {
 	return -1
 }
 
+// a builder bid request for validator v.  Requests for v ask for the SAME bid (same key: slot, parent hash,
+// public key) as long as no document issued so far lets a request for v obtain a bid; the first request
+// after that uses the key a last time (what it obtains is cached, and later requests for the same bid
+// would be answered from the cache, whatever the configuration says by then).
+func (g *genState) bid(v uint64) Cmd {
+	if g.s.Stress {
+		c := Cmd{Op: "bid", V: v}
+		if g.r.Bool() {
+			c.Key = v // answers are not compared: all goroutines and repetitions ask for one bid
+			g.tags["bid-same-key"] = true
+		}
+		return c
+	}
+	key := v*1000 + g.keyGen[v] + 1
+	c := Cmd{Op: "bid", V: v, Key: key, Slot: []uint64{0, 40, 100, 101, 180, 300, 1000}[key%7]}
+	if g.cacheable[v] {
+		g.keyGen[v]++
+	}
+	g.tags["bid-same-key"] = true
+	return c
+}
+
+// a request that the relay will hold (if the configuration gives it a relay to talk to): a registration
+// forwarded for validator v, or a registration round
+func (g *genState) relayHeld(v uint64) {
+	c := Cmd{Op: "fwd", V: v, Gate: true}
+	if !g.regHeld && g.inflight == nil && g.r.Chance(1, 3) {
+		c = Cmd{Op: "reg", Gate: true}
+	}
+	k := g.add(c)
+	if c.Op == "reg" {
+		g.regHeld = true
+	}
+	g.relayGates = append(g.relayGates, k)
+	g.tags["held-by-relay"] = true
+	g.tags["held-by-relay-"+c.Op] = true
+}
+
+func (g *genState) releaseRelay(i int) {
+	k := g.relayGates[i]
+	g.relayGates = append(g.relayGates[:i], g.relayGates[i+1:]...)
+	if g.s.Cmds[g.cmdOf(k)].Op == "reg" {
+		g.regHeld = false
+	}
+	g.add(Cmd{Op: "release", K: k})
+}
+
+// the command that spawned thread k
+func (g *genState) cmdOf(k int) int {
+	n := -1
+	for i, c := range g.s.Cmds {
+		if c.Op != "release" {
+			n++
+		}
+		if n == k {
+			return i
+		}
+	}
+	return 0
+}
+
 // one of the four requests made without an account, for the validator with the settings of v
 func (g *genState) accountless(v uint64) {
 	c := Cmd{Op: "lookup", V: v, NoAcc: true}
 	switch g.r.Intn(4) {
 	case 1:
-		c = Cmd{Op: "bid", V: v}
-		if !g.s.Stress {
-			c.Slot = g.slot()
-		}
+		c = g.bid(v)
 	case 2:
 		c = Cmd{Op: "fwd", V: v}
 	case 3:
@@ -901,8 +1031,14 @@ func gen(r *Rand, search bool) Scenario {
 	if r.Chance(1, 12) {
 		s.URL = false
 	}
-	g := &genState{r: r, s: &s, tags: map[string]bool{}}
-	fam := r.Intn(12)
+	g := &genState{r: r, s: &s, tags: map[string]bool{}, cacheable: map[uint64]bool{}, keyGen: map[uint64]uint64{}}
+	fam := r.Intn(16)
+	switch fam {
+	case 14:
+		fam = 9 // stress and bursts are where the races are found: keep their share (5 of 16; it was 3 of 12)
+	case 15:
+		fam = 10
+	}
 	if search {
 		switch r.Intn(3) {
 		case 0:
@@ -912,7 +1048,7 @@ func gen(r *Rand, search bool) Scenario {
 		}
 	}
 	switch {
-	case fam >= 10:
+	case fam == 10 || fam == 11:
 		// burst: right after a refresh that installs a document with proposer-specific entries, a group
 		// of overlapping requests (lookups, auctions, a registration round), each for a long series of
 		// distinct validators nobody has asked about since the refresh.  Nothing changes the
@@ -1008,6 +1144,9 @@ func gen(r *Rand, search bool) Scenario {
 		all := func(v uint64) {
 			for _, c := range []Cmd{{Op: "lookup", V: v, NoAcc: true}, {Op: "bid", V: v}, {Op: "fwd", V: v}, {Op: "unblind", V: v}} {
 				if r.Chance(3, 4) {
+					if c.Op == "bid" {
+						c = g.bid(v)
+					}
 					g.add(c)
 					g.tags["accountless"] = true
 				}
@@ -1048,6 +1187,102 @@ func gen(r *Rand, search bool) Scenario {
 			for i, n := 0, r.Range(0, 2); i < n; i++ {
 				g.refresh(false)
 				all(bad)
+			}
+		}
+	case fam == 12:
+		// requests held by a relay: the relay sits on the POST of a forwarded registration (or of a registration
+		// round) while configuration refreshes fall due and lookups, auctions and further registrations arrive.
+		// The request is outside the configuration lock then: every refresh and every other request goes
+		// through at once, whatever the refresh's outcome; sometimes a reader is held INSIDE the lock as well
+		// (then the refresh legitimately waits for that one, and only for that one).
+		s.URL = true
+		g.tags["held-by-relay-family"] = true
+		good := uint64(r.Range(1, nValidators))
+		first := g.doc()
+		first.Relay = true
+		keep := first.Bad[:0]
+		for _, v := range first.Bad {
+			if v != good {
+				keep = append(keep, v)
+			}
+		}
+		first.Bad = keep
+		g.add(Cmd{Op: "refresh", Fetch: "ok", Doc: first})
+		for round, rounds := 0, r.Range(1, 3); round < rounds; round++ {
+			g.relayHeld(good)
+			if r.Chance(1, 3) {
+				g.relayHeld(uint64(r.Range(1, nValidators)))
+			}
+			for i, n := 0, r.Range(1, 3); i < n; i++ {
+				g.refresh(false)
+				for j, m := 0, r.Range(1, 3); j < m; j++ {
+					g.reader(false)
+				}
+				if r.Chance(1, 4) {
+					g.add(Cmd{Op: "reg"})
+				}
+			}
+			if r.Chance(1, 3) {
+				// a reader inside the lock as well: the refresh waits for it, and is let go by it alone
+				g.reader(true)
+				g.refresh(false)
+				g.reader(false)
+				for len(g.openGates) > 0 {
+					g.release(r.Intn(len(g.openGates)))
+				}
+			}
+			if r.Chance(2, 3) {
+				for len(g.relayGates) > 0 {
+					g.releaseRelay(r.Intn(len(g.relayGates)))
+				}
+				if r.Chance(1, 2) {
+					g.refresh(false)
+				}
+			}
+		}
+	case fam == 13:
+		// the same builder bid asked for again and again (beacon nodes repeat the header request; several
+		// nodes ask for the same one) while the configuration makes the validator's settings unresolvable,
+		// names no relay, or does not exist; across refreshes that fail and refreshes that install the next
+		// document.  Every request returns, each with the answer the configuration of its moment gives.
+		g.tags["same-bid-family"] = true
+		v := uint64(r.Range(1, nValidators))
+		for round, rounds := 0, r.Range(1, 3); round < rounds; round++ {
+			for i, n := 0, r.Range(0, 2); i < n; i++ {
+				g.add(g.bid(v))
+			}
+			d := g.doc()
+			switch r.Intn(4) {
+			case 0:
+				d.Relay = false
+			default:
+				has := false
+				for _, b := range d.Bad {
+					has = has || b == v
+				}
+				if !has {
+					d.Bad = append(d.Bad, v)
+				}
+				g.tags["unresolvable"] = true
+			}
+			g.add(Cmd{Op: "refresh", Fetch: "ok", Doc: d})
+			for i, n := 0, r.Range(2, 4); i < n; i++ {
+				g.add(g.bid(v))
+				if r.Chance(1, 4) {
+					g.reader(false)
+				}
+			}
+			for i, n := 0, r.Range(0, 2); i < n; i++ {
+				g.refresh(false)
+				g.add(g.bid(v))
+			}
+			if r.Chance(1, 2) {
+				// the next document resolves the validator: the request for the same bid is answered from it
+				nd := g.doc()
+				nd.Bad = nil
+				g.add(Cmd{Op: "refresh", Fetch: "ok", Doc: nd})
+				g.add(g.bid(v))
+				g.add(g.bid(v))
 			}
 		}
 	case fam <= 1:
@@ -1093,9 +1328,15 @@ func gen(r *Rand, search bool) Scenario {
 			case k < 14:
 				g.refresh(false)
 			case k < 16:
-				g.add(Cmd{Op: "reg"})
+				if r.Chance(1, 3) {
+					g.relayHeld(uint64(r.Range(1, nValidators)))
+				} else {
+					g.add(Cmd{Op: "reg"})
+				}
 			default:
-				if len(g.openGates) > 0 {
+				if len(g.relayGates) > 0 && r.Chance(1, 3) {
+					g.releaseRelay(r.Intn(len(g.relayGates)))
+				} else if len(g.openGates) > 0 {
 					g.release(r.Intn(len(g.openGates)))
 				} else {
 					g.reader(false)
@@ -1105,6 +1346,9 @@ func gen(r *Rand, search bool) Scenario {
 	}
 	for len(g.openGates) > 0 {
 		g.release(r.Intn(len(g.openGates)))
+	}
+	for len(g.relayGates) > 0 {
+		g.releaseRelay(r.Intn(len(g.relayGates)))
 	}
 	if !s.Stress {
 		// probes: what is in use at the end
